@@ -34,6 +34,29 @@ func VerifDecompressCellblocks(codec compression.Codec, b []byte) ([]byte, error
 	return c.decompressCellblocks(b)
 }
 
+// VerifCompressor is one long-lived compressor, as every region client
+// owns one: its methods may be called repeatedly and from several goroutines
+// (client.send compresses before it takes the write lock).
+type VerifCompressor struct{ c *compressor }
+
+// VerifNewCompressor returns a compressor to be shared by many calls.
+func VerifNewCompressor(codec compression.Codec) *VerifCompressor {
+	return &VerifCompressor{c: &compressor{Codec: codec}}
+}
+
+// Compress is compressor.compressCellblocks; the result is a copy.
+func (v *VerifCompressor) Compress(cbs [][]byte, total uint32) []byte {
+	out := v.c.compressCellblocks(net.Buffers(cbs), total)
+	cp := append([]byte(nil), out...)
+	freeBuffer(out)
+	return cp
+}
+
+// Decompress is compressor.decompressCellblocks.
+func (v *VerifCompressor) Decompress(b []byte) ([]byte, error) {
+	return v.c.decompressCellblocks(b)
+}
+
 type verifNopConn struct{}
 
 func (verifNopConn) Read(b []byte) (int, error)         { return 0, io.EOF }
